@@ -393,12 +393,11 @@ func (eval Evaluator) InnerFunction(ctIn *Ciphertext, batchSize, n int, f func(a
 			if j&1 == 1 {
 
 				k := n - (n & ((2 << i) - 1))
-				k *= batchSize
 
-				// If the rotation is not zero
+				// If the scanned bit is not the most significant one
 				if k != 0 {
 
-					rot := params.GaloisElement(k)
+					rot := params.GaloisElement(k * batchSize)
 
 					// opOutQ = f(opOutQ, Rotate(ctInNTT, k), opOutQ)
 					if copy {
